@@ -4,6 +4,7 @@ package c02
 import (
 	"fmt"
 	"lunar/engine/streams"
+	"lunar/toolkit-core/verifhook"
 	"os"
 	"sort"
 	"strings"
@@ -43,6 +44,12 @@ type config struct {
 	IDs string `json:"id_style,omitempty"`
 	// LogLevel: the gateway's log level (LOG_LEVEL), output discarded; "" / "off" = logging disabled
 	LogLevel string `json:"log_level,omitempty"`
+	// RespFails: the handling of every response fails inside the flow's response direction, before the quota's end
+	// flow is reached (an error injected at the execution of a Filter there - fault point proc.execute of hook
+	// ec5ca4b; with the shipped processors a response flow fails only through a user-provided processor). The slot of
+	// the transaction may or may not be given back by such a response; the proxy's failure report for it (or the
+	// expiry) must give it back
+	RespFails bool `json:"response_flow_fails,omitempty"`
 	// Nested (with Second): the two independent quotas have filters of their own that both match the transactions
 	// (h.com/c): "main-exact" = the concurrency quota on h.com/c, the second quota on h.com/*; "second-exact" =
 	// the other way round; "" = both on h.com/*
@@ -148,6 +155,19 @@ func (c config) quotaYAML() string {
 // flowYAML of the configuration: the base flow, or the base flow with a second Limiter (quota QF) spliced in
 // behind / in front of the Limiter of the concurrency quota.
 func (c config) flowYAML() string {
+	y := c.flowYAMLBase()
+	if c.RespFails {
+		y = strings.Replace(y, "  Gen429:\n", "  RespFlt:\n    processor: Filter\n    parameters:\n      - key: header\n        value: \"x-resp=1\"\n  Gen429:\n", 1)
+		toEnd := "      to:\n        stream:\n          name: globalStream\n          at: end\n"
+		y = strings.Replace(y, "    - from:\n        stream:\n          name: globalStream\n          at: start\n"+toEnd,
+			"    - from:\n        stream:\n          name: globalStream\n          at: start\n      to:\n        processor:\n          name: RespFlt\n"+
+				"    - from:\n        processor:\n          name: RespFlt\n          condition: hit\n"+toEnd+
+				"    - from:\n        processor:\n          name: RespFlt\n          condition: miss\n"+toEnd, 1)
+	}
+	return y
+}
+
+func (c config) flowYAMLBase() string {
 	if c.Second == "" {
 		return flowYAML
 	}
@@ -292,6 +312,7 @@ func genConfig() *rapid.Generator[config] {
 			}
 		}
 		c.Second = rapid.SampledFrom([]string{"", "", "after", "before", "conc-after", "conc-before"}).Draw(t, "second")
+		c.RespFails = rapid.IntRange(0, 4).Draw(t, "resp-fails") == 0
 		if c.Second != "" {
 			c.Nested = rapid.SampledFrom([]string{"", "main-exact", "second-exact"}).Draw(t, "nested")
 		}
@@ -358,7 +379,12 @@ func genSteps(c config) *rapid.Generator[[]step] {
 				next++
 			case 5, 6:
 				if next > 1 {
-					out = append(out, step{Op: "resp", Txn: rapid.IntRange(1, next).Draw(t, "rtxn")}) // may be unknown (== next) or a duplicate
+					rt := rapid.IntRange(1, next).Draw(t, "rtxn")
+					out = append(out, step{Op: "resp", Txn: rt}) // may be unknown (== next) or a duplicate
+					if c.RespFails && rapid.IntRange(0, 2).Draw(t, "reported") > 0 {
+						// the response flow fails, and the access-log plugin reports the failed transaction
+						out = append(out, step{Op: "err", Txn: rt})
+					}
 				}
 			case 7:
 				if next > 1 {
@@ -382,6 +408,9 @@ func genSteps(c config) *rapid.Generator[[]step] {
 
 type slot struct {
 	expiry time.Time // admit + expiry + 10ms: removed by the first GC pass at or after this instant
+	// maybe: the transaction's response was handled but its flow failed before the quota's end flow: the slot may
+	// have been given back or not (the statement names the response, the proxy's failure report and the expiry)
+	maybe bool
 }
 
 type qmodel struct {
@@ -392,7 +421,7 @@ type qmodel struct {
 
 func (q *qmodel) live(now time.Time) (sure, grey int64) {
 	for _, s := range q.slots {
-		if now.Before(s.expiry) {
+		if now.Before(s.expiry) && !s.maybe {
 			sure++
 		} else {
 			grey++ // expired but not yet collected: the implementation still counts it until the next GC pass
@@ -570,6 +599,16 @@ func runHistoryAtLevel(h hist) (nontrivial bool, classes map[string]int, err err
 	}
 	admitted := map[int]bool{}
 	ended := map[int]bool{}
+	respFailed := map[int]bool{}
+	if h.Config.RespFails {
+		verifhook.SetFault(func(point, arg string) error {
+			if point == "proc.execute" && strings.HasPrefix(arg, "cflow/RespFlt/") {
+				return fmt.Errorf("verif: injected failure of a response-flow processor")
+			}
+			return nil
+		})
+		defer verifhook.SetFault(nil)
+	}
 	refusedWhileFull, admittedAfterRelease := false, false
 	everFull, releasedSinceFull := false, false
 
@@ -713,6 +752,21 @@ func runHistoryAtLevel(h hist) (nontrivial bool, classes map[string]int, err err
 			}
 		case "resp":
 			res := engine.RunResponse(s, txn(st.Txn, false, clk.Now()))
+			if h.Config.RespFails {
+				if res.Err == nil {
+					return false, classes, fmt.Errorf("VERIF-INFRA: step %d: the injected failure of the response flow did not surface", si)
+				}
+				// the response flow failed: the slot is in doubt until the proxy's report or the expiry
+				classes["response-flow-failed"]++
+				for _, q := range m.chain {
+					if sl, ok := q.slots[st.Txn]; ok {
+						sl.maybe = true
+						q.slots[st.Txn] = sl
+					}
+				}
+				respFailed[st.Txn] = true
+				continue
+			}
 			if res.Err != nil {
 				return false, classes, fmt.Errorf("step %d: response ExecuteFlow error: %v", si, res.Err)
 			}
@@ -728,6 +782,9 @@ func runHistoryAtLevel(h hist) (nontrivial bool, classes map[string]int, err err
 			}
 		case "err":
 			s.OnError(txName(st.Txn))
+			if respFailed[st.Txn] {
+				classes["proxy reports a transaction whose response flow failed"]++
+			}
 			if ended[st.Txn] || !admitted[st.Txn] {
 				classes["dup-or-unknown-end"]++
 			}
@@ -801,7 +858,10 @@ func runHistoryAtLevel(h hist) (nontrivial bool, classes map[string]int, err err
 	for id := range admitted {
 		if !ended[id] {
 			res := engine.RunResponse(s, txn(id, false, clk.Now()))
-			if res.Err != nil {
+			if h.Config.RespFails {
+				// the response flow fails; the proxy reports the failed transaction
+				s.OnError(txName(id))
+			} else if res.Err != nil {
 				return false, classes, fmt.Errorf("final: response ExecuteFlow error: %v", res.Err)
 			}
 			m.release(id)
